@@ -70,7 +70,7 @@ def run(model, rep):
 
     # ---------------- CELLS (reduced; the full tables run under C02)
     PAREN_SENSITIVE = ('Tuple', 'Tuple1', 'StarTuple', 'Yield', 'YieldFrom', 'NamedExpr', 'Lambda', 'IfExp', 'GeneratorExp', 'Await', 'Starred')
-    cells = [c for c in c02.all_cells('quick') if c[1].startswith('num ') or c[1].startswith('lay nested') or c[1].startswith('pat case') or
+    cells = [c for c in c02.all_cells('quick') if c[1].startswith('num ') or c[1].startswith('lay nested') or c[1].startswith('lay function') or c[1].startswith('pat case') or
              (c[1].startswith('slot ') and c[1].split('<- ')[-1] in PAREN_SENSITIVE)]
     results = c02.run_cells(model, cells)
     c02.report_cells(rep, 'C08.CELLS', results, 'src/python_minifier/{module,expression,token}_printer.py', lambda l: ' '.join(l.split(' ')[:2]).rstrip(':'), 700)
